@@ -360,7 +360,11 @@ impl ChessMove {
             }
 
             if !ep && takes {
-                if board.piece_on(m.get_dest()).is_none() {
+                // an en-passant capture lands on an empty square; "exd6" denotes it with or
+                // without the optional " e.p." suffix
+                let en_passant = moving_piece == Piece::Pawn
+                    && m.get_source().get_file() != m.get_dest().get_file();
+                if board.piece_on(m.get_dest()).is_none() && !en_passant {
                     continue;
                 }
             }
